@@ -1,2 +1,56 @@
-(* C01 — property theorems (being rebuilt after the model revision). *)
-Require Import QV.C01.Model.
+(* C01 — every RPC call completes exactly once.
+   Statements are about every state reachable by [run fx info init ls] of the RPC pipeline model
+   (Model.v): any number of caller threads (local and remote), any number of calls, every
+   interleaving of the labels, every placement of object removal / context stop / connection loss,
+   every request table [info] (which arguments/results can be pickled, what each body yields).
+   fx = true is the repaired tree (what /repo contains now); fx = false the pinned tree. *)
+Require Import QV.C01.Model QV.C01.ProofsBasic.
+
+(* a call never completes twice: a future never holds two outcomes *)
+Theorem C01_at_most_once : forall fx info ls s,
+  run fx info init ls = Some s -> NoDup (map fst (out s)).
+Proof. exact at_most_once. Qed.
+Print Assumptions C01_at_most_once.
+
+(* ... and the outcome it holds is final: after any continuation it is still that outcome *)
+Theorem C01_outcome_final : forall fx info ls1 ls2 s1 s2 r o,
+  run fx info init ls1 = Some s1 -> run fx info s1 ls2 = Some s2 ->
+  In (r, o) (out s1) -> In (r, o) (out s2) /\ forall o', In (r, o') (out s2) -> o' = o.
+Proof. exact outcome_final. Qed.
+Print Assumptions C01_outcome_final.
+
+(* a call never receives another call's outcome: what it gets is what ITS request yields
+   (value, exception or "locked"), or a delivery error *)
+Theorem C01_own_outcome : forall fx info ls s r o,
+  run fx info init ls = Some s -> In (r, o) (out s) -> o = body (info r) \/ o = ODeliveryError.
+Proof. exact own_outcome. Qed.
+Print Assumptions C01_own_outcome.
+
+(* The pinned tree (fx = false) loses calls: a remote call whose argument cannot be pickled ends up
+   nowhere — no outcome, not in any queue, not in the pending table — so its caller waits forever.
+   (Reproduced on the real code; repaired by a fix: commit.) *)
+Theorem C01_no_call_lost_refuted :
+  exists info ls s,
+    run false info init ls = Some s /\ has_out s 0 = false /\
+    handoff s = [] /\ sockq s = [] /\ c2s s = [] /\ pend s = [] /\ fifo s = [] /\ cur s = None /\
+    replying s = None /\ srvq s = [] /\ s2c s = [].
+Proof.
+  exists (fun _ => mkInfo true 0 false true (OValue 0)).
+  exists [LIssue 0 true; LHandoff 0 true; LSockSend 0 false].
+  eexists. split; [vm_compute; reflexivity|]. vm_compute. repeat split.
+Qed.
+Print Assumptions C01_no_call_lost_refuted.
+
+(* same input on the repaired tree: the call fails at once with a delivery error *)
+Example C01_unpicklable_argument_fixed :
+  option_map out (run true (fun _ => mkInfo true 0 false true (OValue 0)) init
+                      [LIssue 0 true; LHandoff 0 true; LSockSend 0 false]) = Some [(0, ODeliveryError)].
+Proof. vm_compute. reflexivity. Qed.
+
+(* Non-vacuity: a remote call racing with removal of the object is answered by the error reply
+   of the worker's reject loop, delivered over the wire. *)
+Example C01_example_reject :
+  option_map out (run true (fun _ => mkInfo true 0 true true (OValue 7)) init
+    [LIssue 0 true; LHandoff 0 true; LSockSend 0 true; LNetC2S 0 true; LUnregister; LStopFlag; LShutdown;
+     LReject true; LWorkerExit; LSrvSend 0 Sent; LNetS2C 0]) = Some [(0, ODeliveryError)].
+Proof. vm_compute. reflexivity. Qed.
